@@ -134,8 +134,11 @@ class Contract(object):
     def __init__(self, target, types=None, requires="True", ensures=None, raises=None, modifies=None, loops=None,
                  inline=(), assumed=False, returns=None, ghost=None, pure=False, name=None, notes=None,
                  none_safety=True, frame=True, terminates=True, exc_ensures=None, locals=None, attr_overrides=None,
-                 may_raise=(), allowed_raises=(), terminates_required=False, kwargs=None):
+                 may_raise=(), allowed_raises=(), terminates_required=False, kwargs=None, decreases=None):
         self.target = target
+        # function-level measure (spec over the parameters at entry): every call made from inside the function to a function
+        # carrying a measure -- in particular a recursive call -- must be made on a strictly smaller, non-negative measure
+        self.decreases = decreases
         self.types = types or {}
         self.requires = requires
         self.ensures = ensures if isinstance(ensures, (list, tuple, dict)) or ensures is None else [ensures]
@@ -862,7 +865,7 @@ class Executor(object):
             return z3.Not(r) if neg else r
         if isinstance(op, (ast.In, ast.NotIn)):
             neg = isinstance(op, ast.NotIn)
-            r = self.contains(st, b, a, ln)
+            r = self.contains(st, self.as_container(st, b, ln), a, ln)
             return z3.Not(r) if neg else r
         # ordering
         self.require_not_none(st, a, "ordering operand", ln)
@@ -963,8 +966,8 @@ class Executor(object):
         st.heap[key] = (z3.Store(arr, obj.t, newval), z3.Store(da, obj.t, newdom))
 
     def ev_Subscript(self, e, st):
-        base = self.ev(e.value, st)
         ln = getattr(e, "lineno", None)
+        base = self.as_container(st, self.ev(e.value, st), ln)
         if base.kind.startswith("map:"):
             self.require_not_none(st, base, "subscript of a dictionary attribute", ln)
             k = self.ev(e.slice, st)
@@ -1002,8 +1005,18 @@ class Executor(object):
                 return base.t[k]
         raise Unsupported("subscript on %s at line %s" % (base.kind, getattr(e, "lineno", "?")))
 
+    # a dictionary held in a LOCAL or PARAMETER (e.g. a deepcopy memo): typed as a reference to a holder class whose one
+    # map-valued ghost field the suite names in dict_views; subscripts, `in` and `del` on the reference act on that field
+    dict_views = {}
+
+    def as_container(self, st, v, ln=None):
+        if v.kind == "ref" and v.cls is not None and v.cls in self.dict_views:
+            self.require_not_none(st, v, "use of a dictionary", ln)
+            return self.get_attr(st, v, self.dict_views[v.cls], ln)
+        return v
+
     def assign_subscript(self, st, target, v, ln):
-        base = self.ev(target.value, st)
+        base = self.as_container(st, self.ev(target.value, st), ln)
         if base.kind.startswith("map:"):
             self.require_not_none(st, base, "item store into a dictionary attribute", ln)
             k = self.ev(target.slice, st)
@@ -1047,7 +1060,7 @@ class Executor(object):
     def st_Delete(self, s, st):
         for t in s.targets:
             if isinstance(t, ast.Subscript):
-                base = self.ev(t.value, st)
+                base = self.as_container(st, self.ev(t.value, st), s.lineno)
                 if base.kind.startswith("map:"):
                     self.map_delete(st, base, self.ev(t.slice, st), s.lineno)
                     continue
@@ -1145,6 +1158,22 @@ class Executor(object):
 
     def bi_bool(self, e, st):
         return SV("bool", self.truthy(self.ev(e.args[0], st)))
+
+    def bi_id(self, e, st):
+        """id(x): an integer that identifies the object for as long as it is alive -- an injective function of the reference
+        (ASSUMED: the objects whose ids are compared are alive at the same time, as the keys of a deepcopy memo are)"""
+        v = self.ev(e.args[0], st)
+        if v.kind != "ref":
+            if getattr(self, "lenient", False):
+                return self.opaque()
+            raise Unsupported("id() of %s" % v.kind)
+        idf = z3.Function("idof", Ref, z3.IntSort())
+        inv = z3.Function("idof_inv", z3.IntSort(), Ref)
+        r = z3.Const("idr!0", Ref)
+        ax = z3.ForAll([r], inv(idf(r)) == r)
+        if not any(ax.eq(c) for c in st.pc[-8:]):
+            st.assume(ax)
+        return SV("int", idf(v.t))
 
     def bi_len(self, e, st):
         v = self.ev(e.args[0], st)
